@@ -156,16 +156,17 @@ pub fn p_canonization_ind(
     table: &mut [u64],
     best: &mut [u64],
     all_swaps: &[u8],
-) -> usize {
+) -> Option<usize> {
     #[cfg(feature = "verif-hooks")]
     crate::verif::record_walk("p", num_vars, all_swaps, &[]);
     best.clone_from_slice(table);
-    let mut best_ind = 0;
+    // None as long as the initial table is the best one
+    let mut best_ind = None;
     let mut ind = 0;
     for swap in all_swaps {
         swap_adjacent_inplace(num_vars, table, *swap as usize);
         if cmp(table, best).is_lt() {
-            best_ind = ind;
+            best_ind = Some(ind);
             best.clone_from_slice(table);
         }
         ind += 1
@@ -179,18 +180,19 @@ pub fn n_canonization_ind(
     table: &mut [u64],
     best: &mut [u64],
     all_flips: &[u8],
-) -> usize {
+) -> Option<usize> {
     #[cfg(feature = "verif-hooks")]
     crate::verif::record_walk("n", num_vars, &[], all_flips);
     best.clone_from_slice(table);
-    let mut best_ind = 0;
+    // None as long as the initial table is the best one
+    let mut best_ind = None;
     let mut ind = 0;
     for flip in all_flips {
         flip_inplace(num_vars, table, *flip as usize);
         for _ in 0..2 {
             not_inplace(num_vars, table);
             if cmp(table, best).is_lt() {
-                best_ind = ind;
+                best_ind = Some(ind);
                 best.clone_from_slice(table);
             }
             ind += 1;
@@ -205,11 +207,12 @@ pub fn npn_canonization_ind(
     best: &mut [u64],
     all_swaps: &[u8],
     all_flips: &[u8],
-) -> usize {
+) -> Option<usize> {
     #[cfg(feature = "verif-hooks")]
     crate::verif::record_walk("npn", num_vars, all_swaps, all_flips);
     best.clone_from_slice(table);
-    let mut best_ind = 0;
+    // None as long as the initial table is the best one
+    let mut best_ind = None;
     let mut ind = 0;
     for swap in all_swaps {
         swap_adjacent_inplace(num_vars, table, *swap as usize);
@@ -218,7 +221,7 @@ pub fn npn_canonization_ind(
             for _ in 0..2 {
                 not_inplace(num_vars, table);
                 if cmp(table, best).is_lt() {
-                    best_ind = ind;
+                    best_ind = Some(ind);
                     best.clone_from_slice(table);
                 }
                 ind += 1;
@@ -229,12 +232,22 @@ pub fn npn_canonization_ind(
 }
 
 /// Find the corresponding permutation given the index of the best result
-pub fn p_canonization_res(num_vars: usize, res_perm: &mut [u8], all_swaps: &[u8], best_ind: usize) {
-    assert!(best_ind <= all_swaps.len());
+pub fn p_canonization_res(
+    num_vars: usize,
+    res_perm: &mut [u8],
+    all_swaps: &[u8],
+    best_ind: Option<usize>,
+) {
     assert_eq!(res_perm.len(), num_vars);
     for i in 0..res_perm.len() {
         res_perm[i] = i as u8;
     }
+    // The initial table was the best: identity permutation
+    let best_ind = match best_ind {
+        Some(i) => i,
+        None => return,
+    };
+    assert!(best_ind <= all_swaps.len());
     let mut ind = 0;
     for swap in all_swaps {
         let swp = *swap as usize;
@@ -249,7 +262,12 @@ pub fn p_canonization_res(num_vars: usize, res_perm: &mut [u8], all_swaps: &[u8]
 }
 
 /// Find the corresponding complementation given the index of the best result
-pub fn n_canonization_res(num_vars: usize, all_flips: &[u8], best_ind: usize) -> u32 {
+pub fn n_canonization_res(num_vars: usize, all_flips: &[u8], best_ind: Option<usize>) -> u32 {
+    // The initial table was the best: no complementation
+    let best_ind = match best_ind {
+        Some(i) => i,
+        None => return 0,
+    };
     let mut ind = 0;
     let mut cur_flip = 0;
     for flip in all_flips {
@@ -272,12 +290,17 @@ pub fn npn_canonization_res(
     res_perm: &mut [u8],
     all_swaps: &[u8],
     all_flips: &[u8],
-    best_ind: usize,
+    best_ind: Option<usize>,
 ) -> u32 {
     assert_eq!(res_perm.len(), num_vars);
     for i in 0..res_perm.len() {
         res_perm[i] = i as u8;
     }
+    // The initial table was the best: identity permutation, no complementation
+    let best_ind = match best_ind {
+        Some(i) => i,
+        None => return 0,
+    };
     let mut ind = 0;
     let mut cur_flip = 0;
 
